@@ -22,6 +22,9 @@ fn keys() -> Vec<Key> {
         Key::from_name(""),
         Key::from_parts("abcd", Vec::<Label>::new()),
         Key::from_parts("bt", vec![Label::new("e", ""), Label::new("f", ""), Label::new("k", "v")]),
+        // a name far longer than any payload limit (and than whatever a writer might like to keep allocated): always
+        // rejected, but its bytes pass through the writer's buffer
+        Key::from_name("n".repeat(20_000)),
     ]
 }
 
@@ -44,6 +47,7 @@ fn alphabet() -> Vec<Op> {
         Op::Hist(4, vec![f64::NAN, f64::INFINITY, f64::NEG_INFINITY, -0.0, f64::MAX, f64::MIN_POSITIVE], None, true),
         Op::Counter(5, 1, None),
         Op::Hist(5, vec![2.0, 4.0], None, true),
+        Op::Counter(6, 1, None),
         Op::Drain,
     ]
 }
@@ -319,7 +323,7 @@ fn main() {
     driver::main(CheckDef {
         prop: "C09",
         level: "model_checking",
-        rule: "for every max_payload_len in {0..72 (thorough 0..260), boundary values around the longest payload, 8192} x length prefix {off,on} x prefix {None,p,pre} x global labels {[],[g:1]}: every sequence of the stated depth over 18 operations (counter/gauge with extreme values and optional timestamp, histogram/distribution with 0,1,2,3,40 values incl. NaN / +-inf / -0 / MAX / MIN_POSITIVE and optional sample rate, the same key with two different sample rates, names of length 0..12, labels with empty value, drain) on one real PayloadWriter, plus a final drain, with a second, unrelated writer used before every operation (what it emits must equal what it emits when used alone); every drained payload is parsed by an independent DogStatsD parser and matched against the writes since the previous drain (name, type, tags, values in order at round-trip precision, length prefix, size limit, written/dropped accounting); distinct = distinct (config class, drain shape) states",
+        rule: "for every max_payload_len in {0..72 (thorough 0..260), boundary values around the longest payload, 8192} x length prefix {off,on} x prefix {None,p,pre} x global labels {[],[g:1]}: every sequence of the stated depth over 19 operations (counter/gauge with extreme values and optional timestamp, histogram/distribution with 0,1,2,3,40 values incl. NaN / +-inf / -0 / MAX / MIN_POSITIVE and optional sample rate, the same key with two different sample rates, names of length 0..12 and one of 20000 bytes, labels with empty value, drain) on one real PayloadWriter, plus a final drain, with a second, unrelated writer used before every operation (what it emits must equal what it emits when used alone); every drained payload is parsed by an independent DogStatsD parser and matched against the writes since the previous drain (name, type, tags, values in order at round-trip precision, length prefix, size limit, written/dropped accounting); distinct = distinct (config class, drain shape) states",
         assumptions: &["strings in names/tags are benign (no ':' '|' ',' or newline): the DogStatsD protocol has no escaping and the property does not ask for any"],
         parts,
         run,
